@@ -41,6 +41,7 @@ Fifth round: C12.5 the cache file is written in the format appcfg.manifest.load 
 Sixth round: C12.1 a failure to cache an instance escapes _synchronize (no handler around the _cache calls).
 Seventh round: no new clause (both seeds met C12.1 / C12.5 on first contact); the domain recognisers read .difference / .intersection spellings.
 Eighth round: C12.1 every element of the unlink / fetch / refresh domains is acted on - no iteration of the three loops ends before its unlink or _cache call.
+Ninth round: C12.1 a domain of the synchronisation that is read more than once is a collection, not a one-shot iterator; C12.3 no finally block of write_safe ends in return / break / continue.
 Does NOT decide real crash atomicity of the file system nor convergence from
 arbitrary prior contents beyond the set algebra.
 """
